@@ -71,4 +71,92 @@ def gen_readbytes(tier, rng):
                     yield dict(label=f'chunks={chunks!r} nbytes={nb}', self=conn, args={'nbytes': nb}, ghosts={'rx': rx})
 
 
-GENS = {'AsynConn.readline': gen_readline, 'AsynConn.readbytes': gen_readbytes}
+def gen_communicate(tier, rng):
+    """line communicator over a scripted device in virtual time: wait_before 0 / 0.05 / 0.2 s, a stale line (late reply of an earlier
+    command or unsolicited) arriving before the call, at several offsets inside the wait_before window, or never; reply delays below
+    and above the timeout"""
+    import types
+    import frappy.io as FIO
+    import frappy.lib.asynconn as FA
+    from bounded import nodelib
+    import time as real_time
+
+    class Clock:
+        now = 100.0
+    clock = Clock()
+
+    class VTime:
+        def time(self):
+            return clock.now
+
+        def sleep(self, t):
+            clock.now += max(t, 0)
+
+        def __getattr__(self, name):
+            return getattr(real_time, name)
+
+    class Dev(FA.AsynConn):
+        """a device: lines become readable at scripted virtual times; a command is answered `delay` seconds after it was sent"""
+        scheme = 'verifdev'
+
+        def __init__(self, uri, end_of_line=b'\n', default_settings=None):
+            super().__init__(uri, end_of_line, default_settings)
+            self.timeout = 0.05
+            self.incoming = []          # (time, bytes)
+            self.sent = []
+            self.delay = 0.01
+            self.connection = True
+
+        def _avail(self):
+            out = b''.join(d for t, d in self.incoming if t <= clock.now)
+            self.incoming = [(t, d) for t, d in self.incoming if t > clock.now]
+            return out
+
+        def send(self, data):
+            self.sent.append((clock.now, data))
+            cmd = data.strip()
+            self.incoming.append((clock.now + self.delay, b'reply-to-' + cmd + b'\n'))
+
+        def recv(self):
+            data = self._avail()
+            if data:
+                return data
+            nxt = min([t for t, _ in self.incoming] + [clock.now + self.timeout])
+            clock.now = min(nxt, clock.now + self.timeout)
+            return self._avail()
+
+        def flush_recv(self):
+            return self._avail()
+
+        def disconnect(self):
+            self.connection = None
+
+    saved = (FIO.time, FA.time)
+    FIO.time, FA.time = VTime(), VTime()
+    try:
+        for wait_before in (0.0, 0.05, 0.2):
+            for stale_offset in (None, -1.0, -0.001, 0.0, 0.01, wait_before / 2, wait_before * 0.99, wait_before + 0.002):
+                for delay in (0.01, 0.3, 5.0):
+                    srv = nodelib.Srv([nodelib.mod('io', FIO.StringIO, uri='verifdev://x', wait_before=wait_before, timeout=1.0)])
+                    io = srv.secnode.modules['io']
+                    io.connectStart()
+                    conn = io._conn
+                    conn.delay = delay
+                    call_time = clock.now
+                    if stale_offset is not None:
+                        conn.incoming.append((call_time + stale_offset, b'STALE\n'))
+                    stale_in_time = stale_offset is not None and stale_offset <= wait_before
+                    # the reply must be the device's answer to this command; when the device is slower than the timeout an error is fine;
+                    # a stale line arriving after the command was sent is indistinguishable from a reply (not the communicator's fault)
+                    if stale_offset is not None and not stale_in_time:
+                        continue
+                    expected = 'reply-to-fast?' if delay < 1.0 else None
+                    yield dict(label=f'wait_before={wait_before} stale@{stale_offset} delay={delay}', self=io, args={'command': 'fast?'},
+                               ghosts={'expected_reply': expected, 'call_time': call_time,
+                                       'first_send_time': types.SimpleNamespace(conn=conn)},
+                               call=lambda io=io: io.communicate('fast?'))
+    finally:
+        FIO.time, FA.time = saved
+
+
+GENS = {'StringIO.communicate': gen_communicate, 'AsynConn.readline': gen_readline, 'AsynConn.readbytes': gen_readbytes}
